@@ -46,6 +46,13 @@ def local_call_graph(crate):
                     cp = s["rv"]["closure"]
                     if cp in by_path:
                         edges.setdefault(fn.path, []).append((fn, bi, {"k": "closure", "line": s.get("line")}, cp))
+            # a local function handed on as a value (`self.parse_seq(close, Self::parse_list)`): whoever receives it
+            # may call it, so the one who hands it on has an edge to it
+            t = b["term"]
+            if t["k"] == "call":
+                for a in t["args"]:
+                    if a.get("c") == "const" and a.get("fn") in by_path:
+                        edges.setdefault(fn.path, []).append((fn, bi, {"k": "fnitem", "line": t.get("line")}, a["fn"]))
     return edges
 
 
@@ -410,11 +417,13 @@ def evaluate_budget(crate, comp):
                     return k
                 return None
 
-            def hook(S, fn, bb, t, args, path, k=k, seen=seen):
+            def hook(S, fn, bb, t, args, path, k=k, seen=seen, root=f.path):
                 c = t["callee"]
                 tgt = c.get("resolved") or c.get("path") or ""
                 if tgt in cs and c.get("resolved_crate", c.get("crate")) == crate.name:
                     seen.append((fn.path, tgt, counter(path, k)))
+                    if fn.path != root:
+                        seen.append((root, tgt, counter(path, k)))      # reached from `root` through looked-through helpers
                     return ("value", sim.UNK)
                 return None
 
@@ -531,7 +540,7 @@ def check_depth(ctx, crate, r_cycle, r_bal):
                     charged_n += 1
                     r_cycle.ok("%s -> %s is charged (depth delta -1, dominated by the depth != 0 edge)" % (o, callee_owner),
                                fn, t.get("line"))
-                elif t.get("k") != "closure" and budget(comp)[0].get((o, callee_owner)) == {-1} \
+                elif t.get("k") != "closure" and budget(comp)[0].get((o.split("::{closure", 1)[0] if t.get("k") == "fnitem" else o, callee_owner)) == {-1} \
                         and (o, callee_owner) not in budget(comp)[1] and o.split("::{closure", 1)[0] not in budget(comp)[3]:
                     # by evaluation: with a budget of 5 every abstract path reaches this call with 4 left, and with a
                     # budget of 1 no path reaches it
